@@ -51,7 +51,7 @@ def asan_rt():
         ['clang', '-print-file-name=libclang_rt.asan-x86_64.so']).decode().strip()
 
 
-SAN_FLAGS = ['-fsanitize=address,undefined', '-fno-sanitize=pointer-overflow',
+SAN_FLAGS = ['-fsanitize=address,undefined', '-fno-sanitize=pointer-overflow,alignment',
              '-fsanitize-recover=address,undefined', '-shared-libasan']
 
 COMMON_DEFS = ['-DUSE__THREAD', '-DHAVE_SYNC_SYNCHRONIZE', '-DFFI_BUILDING=1']
@@ -78,7 +78,7 @@ def _prune(variant, keep):
 def backend(variant='asan'):
     """Return the directory holding _cffi_backend<EXT> built from the current tree."""
     conf = pyconf()
-    h = tree_hash([variant])
+    h = tree_hash([variant] + SAN_FLAGS + COMMON_DEFS)
     d = os.path.join(BUILD, '%s-%s' % (variant, h))
     so = os.path.join(d, '_cffi_backend' + conf['ext'])
     if os.path.exists(so):
